@@ -78,6 +78,10 @@ def handle (op : String) (j : Json) : Option (Except String Json) :=
       .ok (J.ofList (fun (c, t) => Json.arr #[Json.bool c, ofStr t]) (numRequests s))
   | "c20.parse" => some do
       .ok (ofResult (initFromString (← parseCls (← J.field j "cls")) (← numTables j) (← strOf (← J.field j "s"))))
+  | "c20.float_int_model" => some do
+      match floatIntModel (← strOf (← J.field j "s")) with
+      | some v => .ok (J.ofGQ v)
+      | none => .ok Json.null
   | "c20.find_terms" => some do
       .ok (J.ofList (fun (a, b) => Json.arr #[ofStr a, ofStr b]) (findTerms (← strOf (← J.field j "s"))))
   | "c20.file_path" => some do
